@@ -7,7 +7,7 @@ import vlib
 from vlib import Check
 
 NT, NPH = 9, 2
-OPN = {0: "Lookup", 1: "Apply", 2: "Stub", 3: "Origin", 4: "Cancel", 5: "Reset"}
+OPN = {0: "Lookup", 1: "Apply", 2: "Stub", 3: "Origin", 4: "Cancel", 5: "Reset", 6: "RejectedApply"}
 
 
 def coq_cases(hs, inits):
@@ -26,7 +26,7 @@ def coq_cases(hs, inits):
         for op in h["ops"]:
             k, a, b = op["k"], op["a"], op["b"]
             ops.append({0: "PLookup %d %d" % (a, b), 1: "PApply %d %d" % (a, b), 2: "PStub %d" % a, 3: "POrigin %d %d" % (a, b),
-                        4: "PCancel %d" % a, 5: "PReset %d" % a}[k])
+                        4: "PCancel %d" % a, 5: "PReset %d" % a, 6: "PRejected %d" % a}[k])
         obs = []
         for c, p, q in zip(h["cells"], h["probes"], h["ph"]):
             row = []
@@ -55,6 +55,7 @@ def oracle(ck, h):
     live = set()     # (builder, mocker serial, target): that mocker has applied a mock which has not been cancelled / reset since
     ser = h.get("hserial") or []
     prev = [0] * NT
+    prev_p = None
     for st, op in enumerate(h["ops"]):
         k, a, b = op["k"], op["a"], op["b"]
         cells, probes = h["cells"][st], h["probes"][st]
@@ -71,6 +72,18 @@ def oracle(ck, h):
                                   {"ops": h["ops"][:st + 1], "cells": cells, "probes": probes})
                 return
         allowed = set()
+        if k == 6:
+            if not h["panics"][st]:
+                ck.impl_violation("ill-formed-apply-accepted", "step %d: Apply with an ill-formed callback (variant %d) on target %d did not panic" % (st, b, hm[a]), {"ops": h["ops"][:st + 1]})
+                return
+            if prev_p is not None and probes != prev_p:
+                ck.impl_violation("rejected-apply-changed-behaviour", "step %d: an Apply that goom refused (%s) left the image alone but the targets now behave as %s instead of %s (the mock that stays installed lost its configuration)" % (
+                    st, h["panics"][st], probes, prev_p), {"ops": h["ops"][:st + 1], "before": prev_p, "after": probes})
+                return
+            if cells != prev:
+                ck.impl_violation("rejected-apply-changed-the-image", "step %d: an Apply that goom refused (%s) changed entries %s -> %s" % (st, h["panics"][st], prev, cells),
+                                  {"ops": h["ops"][:st + 1], "before": prev, "after": cells})
+                return
         if k in (1, 2, 4):
             allowed = {hm[a]}
         elif k == 5:
@@ -99,6 +112,7 @@ def oracle(ck, h):
         elif k == 5:
             live = {(bb, m_, t) for (bb, m_, t) in live if bb != a}
         prev = cells
+        prev_p = probes
     if h["end_diff_bytes"]:
         ck.impl_violation("not-pristine-after-reset", "after resetting every builder %d bytes outside placeholder bodies still differ from the pristine image" % h["end_diff_bytes"],
                           {"ops": h["ops"], "end_diff_bytes": h["end_diff_bytes"]})
@@ -153,7 +167,7 @@ def run(replay=None):
             mix[OPN[op["k"]]] = mix.get(OPN[op["k"]], 0) + 1
     ck.notes["op_mix"] = mix
     ck.coverage["distinct_nontrivial"] = len({json.dumps(h["ops"]) for h in hs if any(any(c) for c in h["cells"])})
-    ck.coverage["rule"] = ("random histories of 4-26 operations (Lookup/Apply/Return/Origin/Cancel/Reset incl. stale handles, re-apply, second Reset, re-mock) over 1-3 builders, "
+    ck.coverage["rule"] = ("random histories of 4-26 operations (Lookup/Apply/Return/Origin/Cancel/Reset incl. stale handles, re-apply, second Reset, re-mock, re-apply with an ill-formed callback that goom refuses) over 1-3 builders, "
                            "9 targets (3 functions, 2 exported and 2 unexported methods of one struct, 2 same-named unexported functions of different packages) and 2 origin placeholders; after EVERY step the whole text mapping (~1.8 MB) is diffed against the pristine snapshot; "
                            "non-trivial = some entry was patched; distinct by operation list")
     ck.coverage["samples"] = [{"ops": h["ops"][:8], "cells": h["cells"][:8]} for h in hs[:2]]
